@@ -404,7 +404,7 @@ func c04Concurrent(c *vc.Ctx, batch int) {
 // and each deposit is submitted on its own with its genuine path and position: all of them must be accepted. A deposit
 // that is refused while its neighbours of the same block pass differs from them in position and path only.
 func c04Bridge(c *vc.Ctx, batch int) {
-	sizes := [][]int{{2, 3, 4, 5}, {6, 7, 9}, {8, 11, 13}, {16, 17}, {15, 33}, {31, 32}}[batch%6]
+	sizes := [][]int{{1, 2, 3, 4, 5}, {6, 7, 9}, {8, 11, 13, 1}, {16, 17}, {15, 33}, {31, 32}}[batch%6]
 	res, ok := depositProbe(c, batch, "c04bridge", sizes, nil, nil)
 	accepted := 0
 	for _, r := range res {
@@ -440,7 +440,7 @@ func init() {
 			"then seeded random trees (size<=300) with mutated positions and paths; then synthetic paths of 13..100 nodes (around and beyond the 32-bit width of the position) whose root is the fold of a random leaf under positions 0, 1, 2^31, 2^32-1, 2^d-1 and random ones, each also with one sibling changed and with one position bit flipped. Non-trivial = the claimed position or the path differs from the genuine one; " +
 			"distinct = (tree size, variant, position class, verdict). " +
 			"Then concurrent batches: 16 goroutines verify genuine proofs, foreign leaves under genuine paths, sibling positions and bit-flipped paths of one tree at the same time, next to goroutines double-hashing transactions, every verdict and digest compared with the sequentially computed reference; the whole check also runs in the race-detector build, where a report of unsynchronised shared memory is a violation. " +
-			"Finally 3/12 histories on the real application: Bitcoin blocks of 2..33 transactions in which every position carries a genuine deposit, each submitted with its genuine path and position - all must be accepted by deposit checking (the caller of the verifier).",
+			"Finally 3/12 histories on the real application: Bitcoin blocks of 1..33 transactions (a single-transaction block has an empty path) in which every position carries a genuine deposit, each submitted with its genuine path and position - all must be accepted by deposit checking (the caller of the verifier).",
 		Assume: []string{"crypto/sha256 of the Go standard library is correct (the reference and the tree builder use it, not pkg/crypto)"},
 		Cases: func(tier string) int {
 			if tier == "thorough" {
